@@ -382,3 +382,34 @@ package route
 //@   ensures[every-route-sits-behind-the-panic-catcher@C28] builtServer(r, srv0) ==> usedMW(muxxer, "route.(*Router).panicCatcher")
 //@   ensures[requests-reach-the-routes-as-they-arrive@C37] builtServer(r, srv0) ==> toInt(r.server.Handler) == toInt(muxxer)
 //@   modifies all(usedMW), all(subPrefix), all(routePrefix), all(routeHandler)
+
+// ---- C22 (msgpack batches): a batch event's msgpack time is decoded by the msgpack library's timestamp reader and
+// stored exactly as read; nothing else writes the event's time, and its sample rate is the integer the library read.
+// (Every call in the function has a contract, so a home-made decoder slipped in here is a call without contract.)
+//@ ghost readTimeN() int
+//@ ghost readTimeLast() time
+//@ ghost readIntN() int
+//@ ghost readIntLast() int
+//@ package github.com/tinylib/msgp/msgp
+//@ assume github.com/tinylib/msgp/msgp.ReadTimeBytes
+//@   ghostupdate[decoded-time@C22] readTimeN(), readTimeLast() :: readTimeN() == old(readTimeN()) + 1 && readTimeLast() == result0
+//@ assume github.com/tinylib/msgp/msgp.ReadInt64Bytes
+//@   ghostupdate[decoded-int@C22,C04] readIntN(), readIntLast() :: readIntN() == old(readIntN()) + 1 && readIntLast() == result0
+//@ assume github.com/tinylib/msgp/msgp.ReadMapHeaderBytes
+//@ assume github.com/tinylib/msgp/msgp.ReadMapKeyZC
+//@ assume github.com/tinylib/msgp/msgp.IsNil
+//@ assume github.com/tinylib/msgp/msgp.ReadNilBytes
+//@ assume github.com/tinylib/msgp/msgp.Skip
+//@ package bytes
+//@ assume bytes.Equal
+//@ package types
+//@ assume types.CoreFieldsUnmarshaler.UnmarshalMsgpFirstEvent
+//@   modifies payload
+//@ package route
+//@ contract route.(*batchedEvent).UnmarshalMsg props C22,C04 noframe
+//@   assert only none
+//@   requires b != nil
+//@   ensures[the-time-stored-is-the-time-decoded] result1 == nil && readTimeN() > old(readTimeN()) && b.MsgPackTimestamp != nil ==> *b.MsgPackTimestamp == readTimeLast()
+//@   ensures[the-rate-stored-is-the-rate-decoded] result1 == nil && readIntN() > old(readIntN()) ==> b.SampleRate == readIntLast()
+//@   loop 1 invariant[stored-as-decoded-so-far] b != nil && (readTimeN() > old(readTimeN()) && b.MsgPackTimestamp != nil ==> *b.MsgPackTimestamp == readTimeLast()) && (readIntN() > old(readIntN()) ==> b.SampleRate == readIntLast())
+//@   modifies b.MsgPackTimestamp, *b.MsgPackTimestamp, b.SampleRate, b.Data, all(readTimeN), all(readTimeLast), all(readIntN), all(readIntLast)
